@@ -12,6 +12,35 @@ TRUSTED = [
 ]
 
 
+FAULTS = [
+    # (call, errno, short, path) - frame write fails outright / after a short write; the sync after the frame fails;
+    # the rollback's truncate fails as well (two faults armed together)
+    ("write", 28, 0, "wal_"), ("write", 28, 10, "wal_"), ("write", 5, 0, "wal_"), ("write", 5, 10, "wal_"),
+    ("write", 5, 4, "wal_"), ("write", 122, 30, "wal_"), ("write", 27, 1, "wal_"), ("write", 4, 7, "wal_"),
+    ("fsync", 5, None, "wal_"), ("fsync", 28, None, "wal_"),
+]
+
+
+def with_faults(rng, case):
+    """arms a storage fault in front of some of the write ops of a history (crash enumeration off for those histories'
+    faulted ops); each faulted history ends with two clean restarts and a census"""
+    out = [case[0].replace("crash=1", "crash=0")]
+    for l in case[1:]:
+        op = l.split(" ")[0]
+        if op in ("insert", "delete", "update", "batch_delete") and rng.random() < 0.3:
+            call, errno, short, path = rng.choice(FAULTS)
+            # nth=1 only inside a batch (second frame); elsewhere the second WAL write of an op is the magic of a
+            # rotated segment, whose failure is swallowed by design (rotation is retried at the next write)
+            f = "fault call=%s nth=%d errno=%d path=%s" % (call, rng.choice([0, 1]) if op == "batch_delete" and call == "write" else 0, errno, path)
+            if short is not None:
+                f += " short=%d" % short
+            out.append(f)
+            if rng.random() < 0.15:
+                out.append("fault call=ftruncate nth=0 errno=5 path=wal_")
+        out.append(l)
+    return out + ["restart", "census", "restart", "census"]
+
+
 def gen(thorough, seed):
     rng = rng_for(seed, "C03/persist")
     n = 400 if thorough else 60
@@ -19,14 +48,21 @@ def gen(thorough, seed):
     for i in range(n):
         c = persist.gen_case(rng, n_ops=30 if thorough else 18, crash=True, torn=False)
         out.append(c)
+    for i in range(n):
+        c = persist.gen_case(rng, n_ops=30 if thorough else 18, crash=False, torn=False, invalid=(i % 3 == 0))
+        out.append(with_faults(rng, c))
     return out
 
 
 def run(tier, seed, replay):
     return run_persist_property(
         "C03", MODULE, TRUSTED, tier, seed, replay, gen,
-        {"c03", "c03-index-reject", "c02", "panic"},
+        {"c03", "c03-index-reject", "c02", "c02-restart-refused", "panic"},
         "seeded random histories with ~12% invalid inserts (wrong dimension, NaN, Inf, zero vector, overflowing 3e38) and "
         "index-full situations (capacities 3..6), every op followed by the real strict recover on the materialised "
-        "directory; a failed op must leave live census and recovered census unchanged",
-        ["storage faults are exercised by the fault enumeration section"])
+        "directory; a failed op must leave live census and recovered census unchanged; plus as many histories with STORAGE "
+        "FAULTS armed in front of ~30% of the write ops: the frame write fails outright or after a short write "
+        "(ENOSPC, EIO, EDQUOT, EFBIG, EINTR; 0/1/4/7/10/30 bytes stored), the sync after the frame fails, optionally the "
+        "rollback's truncate fails too; the op may fail (must be a no-op: no net bytes left in the log) or be retried and "
+        "succeed; later acknowledged writes, two clean restarts and censuses follow",
+        ["faults on the WAL path of write operations only (snapshot/MANIFEST publication faults are not injected yet)"])
